@@ -16,9 +16,11 @@ package props
 import (
 	"encoding/json"
 	"fmt"
+	"runtime"
 	"sort"
 	"strings"
 	"sync"
+	"sync/atomic"
 	"testing"
 	"time"
 
@@ -51,6 +53,34 @@ type c12Case struct {
 	// EnvActions makes the rules' actions write a fact of their own
 	// (Env.AddFact) besides returning their tag.
 	EnvActions bool `json:"envActions,omitempty"`
+	// Noise > 0 switches the location's timers on and hangs a PointHook on
+	// every client context: rulio calls it whenever a timed section ends -
+	// at the end of every state and location operation, after its locks
+	// are released - and the hook then yields or sleeps a little
+	// (pseudo-randomly from Noise), which stretches the gaps between the
+	// locked steps of composite requests.
+	Noise int `json:"noise,omitempty"`
+}
+
+// c12Noise is the PointHook of a noisy case.
+type c12Noise struct {
+	seed uint64
+	n    uint64
+}
+
+func (z *c12Noise) hook(ctx *core.Context, namespace string, metric string, val interface{}, unit string, more ...string) {
+	if !strings.HasPrefix(metric, "Count") {
+		return // (two points per timer: act on one)
+	}
+	k := atomic.AddUint64(&z.n, 1)
+	switch (k*2654435761 + z.seed*40503) % 8 {
+	case 4, 5:
+		runtime.Gosched()
+	case 6:
+		time.Sleep(40 * time.Microsecond)
+	case 7:
+		time.Sleep(250 * time.Microsecond)
+	}
 }
 
 // c12SlowStore delays writes (see StoreDelayUs).
@@ -113,6 +143,9 @@ func genC12(t *rapid.T) c12Case {
 	c.StoreDelayUs = rapid.SampledFrom([]int{0, 0, 20, 100}).Draw(t, "storeDelayUs")
 	c.Hooks = rapid.IntRange(0, 2).Draw(t, "hooks") == 0
 	c.EnvActions = rapid.IntRange(0, 2).Draw(t, "envActions") == 0
+	if rapid.Bool().Draw(t, "noise?") {
+		c.Noise = rapid.IntRange(1, 1000).Draw(t, "noise")
+	}
 	if focus != "mixed" {
 		// several runs of a focused workload sample several schedules
 		c.Repeat = rapid.SampledFrom([]int{1, 3, 10}).Draw(t, "repeat")
@@ -279,9 +312,14 @@ var c12Model = porcupine.Model{
 
 // execution ----------------------------------------------------------------
 
-func c12Exec(loc *core.Location, in c12In) c12Out {
+func c12Exec(loc *core.Location, in c12In) c12Out { return c12ExecNoisy(loc, in, nil) }
+
+func c12ExecNoisy(loc *core.Location, in c12In, noise *c12Noise) c12Out {
 	ctx := newCtx()
 	ctx.SetLoc(loc)
+	if noise != nil {
+		ctx.PointHook = noise.hook
+	}
 	errStr := func(err error) string {
 		if err == nil {
 			return ""
@@ -390,6 +428,12 @@ func runC12Once(c c12Case, o *vlib.Outcome) *vlib.Outcome {
 	if c.Hooks {
 		w.withCronHooks()
 	}
+	var noise *c12Noise
+	if c.Noise > 0 {
+		noise = &c12Noise{seed: uint64(c.Noise)}
+		w.ctrl.NoTiming = false
+		o.Label("schedule-noise")
+	}
 	loc, err := w.open("L")
 	if err != nil {
 		o.Fail("OPEN", "%v", err)
@@ -413,7 +457,7 @@ func runC12Once(c c12Case, o *vlib.Outcome) *vlib.Outcome {
 			for j, op := range ops {
 				in := c12In{K: op.K, Id: op.Id, V: fmt.Sprintf("c%d.%d", ci, j), Hooks: c.Hooks, Env: c.EnvActions && op.K == "addRule"}
 				call := time.Since(t0).Nanoseconds()
-				out := c12Exec(loc, in)
+				out := c12ExecNoisy(loc, in, noise)
 				ret := time.Since(t0).Nanoseconds()
 				mu.Lock()
 				history = append(history, porcupine.Operation{ClientId: ci, Input: in, Call: call, Output: out, Return: ret})
